@@ -732,6 +732,17 @@ func (env *specEnv) evalCall(x SCall) (Val, types.Type) {
 		}
 		h := vc.heap(env.st, vc.elemKey(elem), HeapSort(vc.sortOf(elem)))
 		return h, types.NewArray(elem, -2)
+	case "rdin":
+		// rdin(h, s, i): cell i of slice s read in the explicitly given heap h (a clean quantifier trigger)
+		h, ht := arg(0)
+		sl, _ := arg(1)
+		i, _ := arg(2)
+		ha, ok := ht.(*types.Array)
+		if !ok || ha.Len() != -2 {
+			env.fail("rdin: first argument must be a heap")
+			return IntLit(0), tInt
+		}
+		return vc.rd(vc.elemKey(ha.Elem()), h, sl, i), ha.Elem()
 	case "cellsIn":
 		h, ht := arg(0)
 		sl, _ := arg(1)
